@@ -24,7 +24,7 @@ def get_nn_dist(kdt, query_point, dist_max, dist_min, active_points, test_value)
 
     if rp_idx.size == 0:
         return -1, []
-    elif dist_min > 0:
+    elif dist_min >= 0:  # the interval is open at its lower end also for dist_min == 0 (a site at distance 0 is not a neighbour)
         rp_idx = rp_idx[rp_dist > dist_min]
         rp_dist = rp_dist[rp_dist > dist_min]
 
@@ -498,7 +498,7 @@ def check_get_nn_dist(n_trees=40, n_queries=25):
                     assert type(a) is type(b) and len(a) == 2
                     assert a[0] == b[0] and (a[1] == b[1] if b[0] != -1 else a[1] == []), (a, b)
                     d = np.linalg.norm(pts - q, axis=1)
-                    ok = (active == tv) & (d <= dmax) & ((d > dmin) if dmin > 0 else True)
+                    ok = (active == tv) & (d <= dmax) & (d > dmin)
                     if not ok.any():
                         assert a[0] == -1
                     else:
